@@ -67,8 +67,13 @@ class World:
                     ops.append(['writeline'] if kind == 'string' else ['comm'])
             callers.append(ops)
         fault = rng.choice(['none', 'none', 'late-reply', 'garbage', 'silence', 'disconnect', 'disconnect-refuse', 'trailing-extra'])
-        return {'kind': kind, 'callers': callers, 'delay': rng.choice([0.0, 0.01, 0.3]), 'chunk': rng.choice([None, None, 1, 3]), 'fault': fault,
+        scen = {'kind': kind, 'callers': callers, 'delay': rng.choice([0.0, 0.01, 0.3]), 'chunk': rng.choice([None, None, 1, 3]), 'fault': fault,
                 'fault_at': rng.randint(0, 4), 'refuse': rng.choice([0, 1, 3]), 'devseed': rng.randrange(1 << 20)}
+        # line terminator of the device (multi-byte terminators may be cut by the chunking: 'eol' = cut inside it)
+        scen['eol'] = rng.choice(['\n', '\n', '\r\n', '\r\n', '\r', ';;\n']) if kind == 'string' else '\n'
+        if kind == 'string' and len(scen['eol']) > 1 and rng.random() < 0.4:
+            scen['chunk'] = 'eol'
+        return scen
 
     # ---------------------------------------------------------------- scripted device
     def make_device(self, scen, dev):
@@ -78,6 +83,7 @@ class World:
         def serve(sock):
             s = D.CURRENT
             buf = b''
+            eolb = scen.get('eol', '\n').encode()
             while True:
                 data = sock.peer_recv()
                 if data == b'' and sock.closed:
@@ -88,9 +94,9 @@ class World:
                 buf += data
                 while True:
                     if scen['kind'] == 'string':
-                        if b'\n' not in buf:
+                        if eolb not in buf:
                             break
-                        cmd, buf = buf.split(b'\n', 1)
+                        cmd, buf = buf.split(eolb, 1)
                     else:
                         if len(buf) < 8:
                             break
@@ -101,7 +107,7 @@ class World:
                     fault = scen['fault']
                     if cmd.startswith(b'W'):
                         continue          # writeline: no reply expected
-                    reply = (b'R:' + cmd + b'\n') if scen['kind'] == 'string' else (b'R' + cmd[1:])
+                    reply = (b'R:' + cmd + eolb) if scen['kind'] == 'string' else (b'R' + cmd[1:])
                     if fault == 'silence' and n > scen['fault_at']:
                         continue
                     if fault in ('disconnect', 'disconnect-refuse') and n > scen['fault_at'] and not dev['dropped']:
@@ -116,11 +122,19 @@ class World:
                         dev['stale'].append((s.now, reply))
                         continue
                     if fault == 'trailing-extra' and scen['kind'] == 'string' and n % 2:
-                        reply += b'EXTRA\n'        # an unsolicited line right behind the reply, in the same segment
-                        dev['stale'].append((s.now + 1e9, b'EXTRA\n'))
+                        reply += b'EXTRA' + eolb        # an unsolicited line right behind the reply, in the same segment
+                        dev['stale'].append((s.now + 1e9, b'EXTRA' + eolb))
                     if scen['delay']:
                         D.vsleep(scen['delay'])
-                    if scen['chunk']:
+                    if scen['chunk'] == 'eol':
+                        # every terminator is cut in two
+                        pieces = reply.split(eolb)
+                        for piece in pieces[:-1]:
+                            sock.peer_send(piece + eolb[:1])
+                            sock.peer_send(eolb[1:])
+                        if pieces[-1]:
+                            sock.peer_send(pieces[-1])
+                    elif scen['chunk']:
                         for i in range(0, len(reply), scen['chunk']):
                             sock.peer_send(reply[i:i + scen['chunk']])
                     else:
@@ -156,6 +170,8 @@ class World:
             s = D.CURRENT
             iocls = type('IO16', (base,), {'__module__': __name__})
             cfg = {'io': {'cls': iocls, 'description': 'communicator', 'uri': 'tcp://devhost:5001', 'timeout': {'value': TIMEOUT}, 'pollinterval': {'value': 3}}}
+            if scen['kind'] == 'string' and scen.get('eol', '\n') != '\n':
+                cfg['io']['end_of_line'] = scen['eol']
             node = self.nodes.Node(cfg, testonly=False).build()
             io = node.secnode.modules['io']
             info['io'] = io
@@ -203,7 +219,7 @@ class World:
             info['t_callers_done'] = s.now
             D.vsleep(25)          # several reconnect intervals
             if scen['fault'] == 'garbage' and dev['socks'] and not dev['socks'][-1].closed:
-                g = b'GARBAGE\n' if scen['kind'] == 'string' else b'GGGGGGGG'
+                g = b'GARBAGE' + scen.get('eol', '\n').encode() if scen['kind'] == 'string' else b'GGGGGGGG'
                 dev['socks'][-1].peer_send(g)        # unsolicited data while nobody talks to the device
                 dev['stale'].append((s.now, g))
                 D.vsleep(0.2)
@@ -230,7 +246,10 @@ class World:
         (violation); data that arrives after the command was sent (a late reply of an earlier command) can not be
         told apart by a communicator without message ids: not judged"""
         def norm(x):
-            return x.rstrip(b'\n').decode('latin1') if scen['kind'] == 'string' and isinstance(x, bytes) else x
+            if scen['kind'] == 'string' and isinstance(x, bytes):
+                eolb = scen.get('eol', '\n').encode()
+                return (x[:-len(eolb)] if x.endswith(eolb) else x).decode('latin1')
+            return x
         for t, g, w_ in zip(toks, got, want):
             if g == w_:
                 continue
@@ -263,7 +282,7 @@ class World:
                 r.inconclusive.append('wall-clock watchdog fired')
             return
         multi = any(op[0] == 'multi' for c in scen['callers'] for op in c)
-        r.case((strategy[0], s.signature(), scen['kind'], scen['fault'], scen['chunk']), scen['fault'] != 'none' or multi or bool(scen['chunk']))
+        r.case((strategy[0], s.signature(), scen['kind'], scen['fault'], scen['chunk'], scen.get('eol')), scen['fault'] != 'none' or multi or bool(scen['chunk']))
         if r.want_sample() and scen['fault'] != 'none':
             r.sample({'scenario': scen, 'device_commands': [(round(t - self.D.T0, 3), c.decode('latin1')) for t, c in dev['cmds']][:10],
                       'results': {f'{k[0]}.{k[1]}': {kk: (vv if not isinstance(vv, bytes) else vv.decode('latin1')) for kk, vv in v.items() if kk in ('op', 'error')} for k, v in results.items()}})
@@ -372,7 +391,7 @@ def cmdtime_final(dev, scen):
     for sock in dev['socks']:
         for t, data in sock.sent_log:
             if scen['kind'] == 'string':
-                for line in data.split(b'\n'):
+                for line in data.split(scen.get('eol', '\n').encode()):
                     if line:
                         out.setdefault(line.decode('latin1'), t)
             else:
